@@ -350,6 +350,16 @@ class SquidsHooks(GslHooks):
                 raise NotAnOrderComparison(it.loc(node), op, pa, pb)
         return NotImplemented
 
+    def float_to_int(self, it, node, value):
+        # a floating value turned into an index (an interpolation estimate, say): decided on the concrete instance of the
+        # order, when there is one
+        if self.order is not None:
+            x = self.order.numeric(value if isinstance(value, Poly) else it.to_poly(value))
+            if x is not None:
+                self.order.used_witness.append('(int)%s' % (value,))
+                return int(x)  # truncation toward zero, as the conversion does
+        return GslHooks.float_to_int(self, it, node, value)
+
     def on_unique_reset(self, it, node, old, new):
         # a smart pointer gives up what it held: for a GSL driver that is its release
         if isinstance(old, Ptr) and old.region is not None and not old.is_null() and old.region.meta.get('driver') and old != new:
